@@ -81,6 +81,9 @@ type Pong struct {
 	Terminated int32
 	Activation bus.Activation
 	mu         sync.Mutex
+	// TerminateDelay: how long the termination hook takes (it is counted once
+	// it has completed)
+	TerminateDelay time.Duration
 }
 
 func delayOf(tag string) time.Duration {
@@ -103,7 +106,12 @@ func (p *Pong) Activate(activation bus.Activation, helper pong.PingPongSignalHel
 }
 
 // OnTerminate counts terminations.
-func (p *Pong) OnTerminate() { atomic.AddInt32(&p.Terminated, 1) }
+func (p *Pong) OnTerminate() {
+	if p.TerminateDelay > 0 {
+		time.Sleep(p.TerminateDelay)
+	}
+	atomic.AddInt32(&p.Terminated, 1)
+}
 
 // Hello records and answers.
 func (p *Pong) Hello(a string) (string, error) {
